@@ -130,14 +130,28 @@ class C03(Check):
         fi.index = idx
         return fi
 
-    def check_scaffolds(self, fi, w, eol, buf, ll, scaffolds, ctx):
+    def check_scaffolds(self, fi, w, eol, buf, ll, scaffolds, ctx, pre_gc=None):
         """scaffolds: list of (name, rows)"""
         case = [w, eol, buf, ll, [[n, [list(r) for r in rows]] for n, rows in scaffolds]]
         ctx.cur = case
         ctx.evaluations += 1
+        if pre_gc is None:
+            pre_gc = []
+            if ctx.evaluations % 4 == 0 and any(r[0] == "G" and r[1] for _, rows in scaffolds for r in rows):
+                pre_gc = ["n", "-"][: 1 + ctx.evaluations % 8 // 4]
+        case.append(pre_gc)
         asm = Assembly("x", scaffolds=[fm.build_scaffold(n, rows) for n, rows in scaffolds])
         out = io.BytesIO()
         try:
+            if pre_gc:
+                # history: another stream on the same index first wrote the same assembly with another gap character
+                # (chosen by the writer, per stream); the default stream that follows must still write N
+                for gc in (g.encode() for g in pre_gc):
+                    pre = io.BytesIO()
+                    FastaStream(pre, fi, line_length=ll, gap_character=gc).write_assembly(asm)
+                    if pre.getvalue() != fm.expected_stream(dict(RECS), scaffolds, ll, gapchar=gc):
+                        ctx.violation("stream-bytes/gap-character", case, f"gap_character={gc!r}: got {pre.getvalue()!r}")
+                        return
             FastaStream(out, fi, line_length=ll).write_assembly(asm)
         except Exception as e:  # noqa: BLE001
             ctx.violation(f"stream-raises:{type(e).__name__}", case, repr(e))
@@ -216,11 +230,12 @@ class C03(Check):
             return c03_cli.replay(self, case, ctx)
         if case and case[0] == "long":
             return self.check_long(case[1], case[2], ctx)
-        w, eol, buf, ll, scaffolds = case
+        w, eol, buf, ll, scaffolds, *rest = case
         fi = self.make_index(w, eol, buf)
-        self.check_scaffolds(fi, w, eol, buf, ll, [(n, [tuple(r) for r in rows]) for n, rows in scaffolds], ctx)
+        self.check_scaffolds(fi, w, eol, buf, ll, [(n, [tuple(r) for r in rows]) for n, rows in scaffolds], ctx, pre_gc=rest[0] if rest else [])
 
 
 CHECK = C03()
 # scope added in later rounds, kept in the evidence text
 CHECK.rule += " API: the AGP formatted from the same assembly lists the same rows (scaffolds ending in a gap or with two gaps in a row, and every 16th case). Header lines with a description ending in blanks (three width / buffer pairs, LF and CRLF). Input files without a final newline (two buffers per width); assemblies of two and three whole-record scaffolds in every order and strand. An empty line between the two records of the input (three width / buffer pairs). CLI: every sixth case also 'restaged' - an older version of the FASTA is indexed by a first invocation, the file is rewritten and FASTA, .fai and .agp are given the same mtime."
+CHECK.rule += ' History on a shared index: every fourth case with a gap is first streamed with gap_character n (and -) through another FastaStream on the same FastaIndex; the default stream that follows must write N.'
